@@ -12,7 +12,8 @@ structure ChanInv (ch : Chan) : Prop where
   fifo : ch.receiverAlive = true → ch.accepted = ch.yielded ++ ch.buf
   yieldedPrefix : ch.yielded <+: ch.accepted
   noLoss : ch.lagged = false → ch.receiverAlive = true → ch.accepted = ch.sent
-  prefixUnlessGap : ch.gapped = false → ch.accepted <+: ch.sent
+  prefixSent : ch.accepted <+: ch.sent
+  noGap : ch.gapped = false
   laggedIff : ch.lagged = true ↔ 0 < ch.fullSeen
   subEnd : ∀ s, ch.owner = .sub s → ch.senderAlive = false → ch.closedByServer = true ∨ ch.unsubscribed = true
 
@@ -20,7 +21,8 @@ theorem chanInv_fresh (cap : Nat) (o : Owner) (op : Nat) (uid : Id := .null) : C
   fifo := by intro _; rfl
   yieldedPrefix := by simp
   noLoss := by intro _ _; rfl
-  prefixUnlessGap := by intro _; simp
+  prefixSent := by simp
+  noGap := rfl
   laggedIff := by simp
   subEnd := by intro s _ h; simp at h
 
@@ -28,28 +30,39 @@ theorem prefix_append_right {α} {a b : List α} (c : List α) (h : a <+: b) : a
   obtain ⟨t, ht⟩ := h
   exact ⟨t ++ c, by rw [← ht, List.append_assoc]⟩
 
+theorem sendRes_ok (ch : Chan) (h : ch.sendRes = .ok) : ch.lagged = false ∧ ch.receiverAlive = true := by
+  unfold Chan.sendRes at h
+  cases hl : ch.lagged with
+  | true => simp [hl] at h
+  | false =>
+    cases hr : ch.receiverAlive with
+    | false => simp [hl, hr] at h
+    | true => exact ⟨rfl, rfl⟩
+
+theorem sendRes_closed (ch : Chan) (h : ch.sendRes = .closed) : ch.receiverAlive = false := by
+  unfold Chan.sendRes at h
+  cases hl : ch.lagged with
+  | true => simp [hl] at h
+  | false =>
+    cases hr : ch.receiverAlive with
+    | false => rfl
+    | true => simp [hl, hr] at h; split at h <;> simp at h
+
 theorem chanInv_afterSend (ch : Chan) (p : Text) (h : ChanInv ch) : ChanInv (ch.afterSend p) := by
   unfold Chan.afterSend
   cases hr : ch.sendRes with
   | closed =>
-    have hra : ch.receiverAlive = false := by
-      unfold Chan.sendRes at hr
-      cases h1 : ch.receiverAlive with
-      | false => rfl
-      | true => simp [h1] at hr; split at hr <;> simp at hr
+    have hra := sendRes_closed ch hr
     exact {
       fifo := by intro h1; simp [hra] at h1
       yieldedPrefix := h.yieldedPrefix
       noLoss := by intro _ h1; simp [hra] at h1
-      prefixUnlessGap := by intro hg; exact prefix_append_right _ (h.prefixUnlessGap hg)
+      prefixSent := prefix_append_right _ h.prefixSent
+      noGap := h.noGap
       laggedIff := h.laggedIff
       subEnd := h.subEnd }
   | ok =>
-    have hra : ch.receiverAlive = true := by
-      unfold Chan.sendRes at hr
-      cases h1 : ch.receiverAlive with
-      | false => simp [h1] at hr
-      | true => rfl
+    obtain ⟨hl, hra⟩ := sendRes_ok ch hr
     exact {
       fifo := by
         intro _
@@ -57,15 +70,16 @@ theorem chanInv_afterSend (ch : Chan) (p : Text) (h : ChanInv ch) : ChanInv (ch.
         rw [h.fifo hra, List.append_assoc]
       yieldedPrefix := prefix_append_right _ h.yieldedPrefix
       noLoss := by
-        intro hl _
+        intro _ _
         show ch.accepted ++ [p] = ch.sent ++ [p]
         rw [h.noLoss hl hra]
-      prefixUnlessGap := by
-        intro hg
-        simp only [Bool.or_eq_false_iff] at hg
+      prefixSent := by
         show ch.accepted ++ [p] <+: ch.sent ++ [p]
-        rw [h.noLoss hg.2 hra]
+        rw [h.noLoss hl hra]
         exact List.prefix_refl _
+      noGap := by
+        show (ch.gapped || ch.lagged) = false
+        rw [h.noGap, hl]; rfl
       laggedIff := h.laggedIff
       subEnd := h.subEnd }
   | full =>
@@ -73,7 +87,8 @@ theorem chanInv_afterSend (ch : Chan) (p : Text) (h : ChanInv ch) : ChanInv (ch.
       fifo := h.fifo
       yieldedPrefix := h.yieldedPrefix
       noLoss := by intro hl; simp at hl
-      prefixUnlessGap := by intro hg; exact prefix_append_right _ (h.prefixUnlessGap hg)
+      prefixSent := prefix_append_right _ h.prefixSent
+      noGap := h.noGap
       laggedIff := by simp
       subEnd := h.subEnd }
 
@@ -81,7 +96,8 @@ theorem chanInv_dropSender_closed (ch : Chan) (h : ChanInv ch) : ChanInv { dropS
   fifo := h.fifo
   yieldedPrefix := h.yieldedPrefix
   noLoss := h.noLoss
-  prefixUnlessGap := h.prefixUnlessGap
+  prefixSent := h.prefixSent
+  noGap := h.noGap
   laggedIff := h.laggedIff
   subEnd := by intro _ _ _; exact Or.inl rfl
 
@@ -89,7 +105,8 @@ theorem chanInv_dropSender_unsub (ch : Chan) (h : ChanInv ch) : ChanInv { dropSe
   fifo := h.fifo
   yieldedPrefix := h.yieldedPrefix
   noLoss := h.noLoss
-  prefixUnlessGap := h.prefixUnlessGap
+  prefixSent := h.prefixSent
+  noGap := h.noGap
   laggedIff := h.laggedIff
   subEnd := by intro _ _ _; exact Or.inr rfl
 
@@ -98,7 +115,8 @@ theorem chanInv_dropSender_method (ch : Chan) (m : Text) (ho : ch.owner = .metho
   fifo := h.fifo
   yieldedPrefix := h.yieldedPrefix
   noLoss := h.noLoss
-  prefixUnlessGap := h.prefixUnlessGap
+  prefixSent := h.prefixSent
+  noGap := h.noGap
   laggedIff := h.laggedIff
   subEnd := by intro s hs _; simp [dropSender, ho] at hs
 
@@ -106,7 +124,8 @@ theorem chanInv_dropReceiver (ch : Chan) (h : ChanInv ch) : ChanInv { dropReceiv
   fifo := by intro h1; simp [dropReceiver] at h1
   yieldedPrefix := h.yieldedPrefix
   noLoss := by intro _ h1; simp [dropReceiver] at h1
-  prefixUnlessGap := h.prefixUnlessGap
+  prefixSent := h.prefixSent
+  noGap := h.noGap
   laggedIff := h.laggedIff
   subEnd := h.subEnd
 
@@ -114,7 +133,8 @@ theorem chanInv_hasKind (ch : Chan) (b : Bool) (h : ChanInv ch) : ChanInv { ch w
   fifo := h.fifo
   yieldedPrefix := h.yieldedPrefix
   noLoss := h.noLoss
-  prefixUnlessGap := h.prefixUnlessGap
+  prefixSent := h.prefixSent
+  noGap := h.noGap
   laggedIff := h.laggedIff
   subEnd := h.subEnd
 
@@ -122,7 +142,8 @@ theorem chanInv_unsubWires (ch : Chan) (n : Nat) (h : ChanInv ch) : ChanInv { ch
   fifo := h.fifo
   yieldedPrefix := h.yieldedPrefix
   noLoss := h.noLoss
-  prefixUnlessGap := h.prefixUnlessGap
+  prefixSent := h.prefixSent
+  noGap := h.noGap
   laggedIff := h.laggedIff
   subEnd := h.subEnd
 
@@ -137,7 +158,8 @@ theorem chanInv_pop (ch : Chan) (p : Text) (rest : List Text) (hb : ch.buf = p :
     rw [h.fifo hra, hb]
     exact ⟨rest, by simp⟩
   noLoss := h.noLoss
-  prefixUnlessGap := h.prefixUnlessGap
+  prefixSent := h.prefixSent
+  noGap := h.noGap
   laggedIff := h.laggedIff
   subEnd := h.subEnd
 
@@ -148,7 +170,8 @@ theorem chanInv_ack (id : Id) (ch : Chan) (h : ChanInv ch) : ChanInv (ackChan id
       fifo := h.fifo
       yieldedPrefix := h.yieldedPrefix
       noLoss := h.noLoss
-      prefixUnlessGap := h.prefixUnlessGap
+      prefixSent := h.prefixSent
+      noGap := h.noGap
       laggedIff := h.laggedIff
       subEnd := h.subEnd }
   · exact h
@@ -275,48 +298,71 @@ theorem routes_newChan (st : Core) (o : Owner) (op : Nat) (h : Routes st) (uid :
     | none => simp [hg] at h2
     | some x => rw [getElem?_append_of_some _ _ _ _ hg]; simpa [hg] using h2
 
+/-- a manager change that keeps every reverse-index entry and the subscription entry it points at,
+and adds no handler -/
+theorem routes_mgr_frame (st : Core) (m' : Mgr) (h : Routes st)
+    (hs : ∀ s rid, alookup s m'.subs = some rid → alookup s st.mgr.subs = some rid)
+    (hh : ∀ m c, alookup m m'.handlers = some c → alookup m st.mgr.handlers = some c)
+    (hr : ∀ s rid u c um, alookup s m'.subs = some rid → alookup rid st.mgr.requests = some (.sub u c um) →
+      alookup rid m'.requests = some (.sub u c um)) :
+    Routes { st with mgr := m' } where
+  subs := by
+    intro s rid hs'
+    obtain ⟨uid, ch, um, h1, h2⟩ := h.subs s rid (hs s rid hs')
+    exact ⟨uid, ch, um, hr s rid uid ch um hs' h1, h2⟩
+  handlers := fun m ch hm => h.handlers m ch (hh m ch hm)
+
 /-- erasing a request entry that is **not** an active subscription -/
 theorem routes_erase_nonsub (st : Core) (id : Id) (h : Routes st)
     (hn : ∀ uid ch um, alookup id st.mgr.requests ≠ some (.sub uid ch um)) :
-    Routes { st with mgr := { st.mgr with requests := aerase id st.mgr.requests } } where
-  subs := by
-    intro s rid hs
-    obtain ⟨uid, ch, um, h1, h2⟩ := h.subs s rid hs
-    have : rid ≠ id := by intro e; subst e; exact hn uid ch um h1
-    exact ⟨uid, ch, um, by simp only; rw [alookup_aerase_ne rid id _ this]; exact h1, h2⟩
-  handlers := h.handlers
+    Routes { st with mgr := { st.mgr with requests := aerase id st.mgr.requests } } := by
+  apply routes_mgr_frame st { st.mgr with requests := aerase id st.mgr.requests } h (fun _ _ h => h) (fun _ _ h => h)
+  intro s rid u c um _ h1
+  have : rid ≠ id := by intro e; subst e; exact hn u c um h1
+  simp only
+  rw [alookup_aerase_ne rid id _ this]; exact h1
+
+/-- releasing a reserved slot -/
+theorem routes_release (st : Core) (uid : Id) (h : Routes st) :
+    Routes { st with mgr := st.mgr.releaseReservedSlot uid } := by
+  obtain ⟨a, _, c⟩ := releaseReservedSlot_others st.mgr uid
+  apply routes_mgr_frame st (st.mgr.releaseReservedSlot uid) h (fun _ _ h => by rw [a] at h; exact h) (fun _ _ h => by rw [c] at h; exact h)
+  intro s rid u ch um _ h1
+  exact (alookup_releaseReservedSlot st.mgr uid rid _ (by simp)).2 h1
 
 /-- inserting under a vacant key -/
 theorem routes_insert_vacant (st : Core) (id : Id) (v : Kind) (h : Routes st) (hv : alookup id st.mgr.requests = none) :
-    Routes { st with mgr := { st.mgr with requests := (id, v) :: st.mgr.requests } } where
-  subs := by
-    intro s rid hs
-    obtain ⟨uid, ch, um, h1, h2⟩ := h.subs s rid hs
-    have : rid ≠ id := by intro e; subst e; rw [hv] at h1; simp at h1
-    exact ⟨uid, ch, um, by simp only; rw [alookup_cons_ne rid id v _ this]; exact h1, h2⟩
-  handlers := h.handlers
+    Routes { st with mgr := { st.mgr with requests := (id, v) :: st.mgr.requests } } := by
+  apply routes_mgr_frame st { st.mgr with requests := (id, v) :: st.mgr.requests } h (fun _ _ h => h) (fun _ _ h => h)
+  intro s rid u c um _ h1
+  have : rid ≠ id := by intro e; subst e; rw [hv] at h1; simp at h1
+  simp only
+  rw [alookup_cons_ne rid id v _ this]; exact h1
 
-/-- removing a subscription: its request entry is erased or overwritten, its index entry erased -/
-theorem routes_remove_sub (st : Core) (rid : Id) (s : SubId) (reqs' : List (Id × Kind)) (h : Routes st)
+/-- removing a subscription: the reverse index loses `s`; every *other* subscription entry stays -/
+theorem routes_remove_sub (st : Core) (rid : Id) (s : SubId) (m' : Mgr) (h : Routes st)
     (hs : alookup s st.mgr.subs = some rid)
-    (hr : ∀ k, k ≠ rid → alookup k reqs' = alookup k st.mgr.requests) :
-    Routes { st with mgr := { st.mgr with requests := reqs', subs := aerase s st.mgr.subs } } where
-  subs := by
-    intro s' rid' hs'
-    simp only at hs'
-    have hne : s' ≠ s := by intro e; subst e; rw [alookup_aerase_self] at hs'; simp at hs'
-    rw [alookup_aerase_ne s' s _ hne] at hs'
-    obtain ⟨uid, ch, um, h1, h2⟩ := h.subs s' rid' hs'
+    (hsubs : m'.subs = aerase s st.mgr.subs) (hh : m'.handlers = st.mgr.handlers)
+    (hr : ∀ k u c um, k ≠ rid → alookup k st.mgr.requests = some (.sub u c um) → alookup k m'.requests = some (.sub u c um)) :
+    Routes { st with mgr := m' } := by
+  apply routes_mgr_frame st m' h
+  · intro s' rid' hs'
+    rw [hsubs] at hs'
+    exact (alookup_aerase_some s' s _ _ hs').1
+  · intro m c hm; rw [hh] at hm; exact hm
+  · intro s' rid' u c um hs' h1
+    rw [hsubs] at hs'
+    obtain ⟨hs2, hne⟩ := alookup_aerase_some s' s _ _ hs'
     have : rid' ≠ rid := by
       intro e; subst e
       obtain ⟨uid0, ch0, um0, g1, g2⟩ := h.subs s rid' hs
-      rw [h1] at g1; simp at g1
-      obtain ⟨_, e2, _⟩ := g1
+      obtain ⟨uid1, ch1, um1, g3, g4⟩ := h.subs s' rid' hs2
+      rw [g1] at g3; simp at g3
+      obtain ⟨_, e2, _⟩ := g3
       subst e2
-      rw [h2] at g2; simp at g2
-      exact hne g2
-    exact ⟨uid, ch, um, by simp only; rw [hr rid' this]; exact h1, h2⟩
-  handlers := h.handlers
+      rw [g2] at g4; simp at g4
+      exact hne g4.symm
+    exact hr rid' u c um this h1
 
 theorem routes_ackChans (st : Core) (id : Id) (h : Routes st) : Routes (st.ackChans id) where
   subs := by
@@ -378,9 +424,12 @@ theorem cinv_processSubscriptionClose (st : Core) (s : SubId) (h : CInv st) : CI
     | some x =>
       obtain ⟨m', uid, c, um⟩ := x
       obtain ⟨_, _, e⟩ := removeSubscription_spec _ _ _ _ _ _ _ h2
-      subst e
+      have e' : m' = removedMgr st.mgr rid uid s := e
+      subst e'
       simp only
-      have hr := routes_remove_sub st rid s (aerase rid st.mgr.requests) h.routes h1 (fun k hk => alookup_aerase_ne k rid _ hk)
+      obtain ⟨o1, _, o3⟩ := removedMgr_others st.mgr rid uid s
+      have hr := routes_remove_sub st rid s (removedMgr st.mgr rid uid s) h.routes h1 o1 o3
+        (fun k u c' um' hk hl => (removedMgr_alookup st.mgr rid uid s k _ (by simp) hk).2 hl)
       exact ⟨allChans_modChan ChanInv _ _ _ (fun ch hc => h.chans ch hc) (fun ch _ hc => chanInv_dropSender_closed ch hc),
              routes_modChan _ c _ (fun ch => rfl) hr⟩
 
@@ -433,9 +482,11 @@ theorem cinv_buildUnsub (st : Core) (rid : Id) (s : SubId) (st' : Core) (msg : F
     obtain ⟨e1, _⟩ := hb
     subst e1
     obtain ⟨_, _, e⟩ := unsubscribe_spec _ _ _ _ _ _ _ hu
-    subst e
-    have hr := routes_remove_sub st rid s (areplace rid (.pendingCall none) st.mgr.requests) h.routes hs
-      (fun k hk => alookup_areplace_ne k rid _ _ hk)
+    have e' : m' = unsubMgr st.mgr rid uid s := e
+    subst e'
+    obtain ⟨o1, _, o3⟩ := unsubMgr_others st.mgr rid uid s
+    have hr := routes_remove_sub st rid s (unsubMgr st.mgr rid uid s) h.routes hs o1 o3
+      (fun k u c' um' hk hl => (unsubMgr_alookup st.mgr rid uid s k _ (by simp) (by simp) hk).2 hl)
     exact ⟨allChans_modChan ChanInv _ _ _ (fun ch hc => h.chans ch hc) (fun ch _ hc => chanInv_dropSender_unsub ch hc),
            routes_modChan _ c _ (fun ch => rfl) hr⟩
 
@@ -470,19 +521,22 @@ theorem routes_insert_sub (st : Core) (sid uid : Id) (s : SubId) (um : Text) (op
     | none => simp [hg] at h2
     | some x => rw [getElem?_append_of_some _ _ _ _ hg]; simpa [hg] using h2
 
+theorem cinv_release (st : Core) (uid : Id) (h : CInv st) : CInv { st with mgr := st.mgr.releaseReservedSlot uid } :=
+  ⟨fun ch hc => h.chans ch hc, routes_release st uid h.routes⟩
+
 theorem cinv_completeSubscribe (st : Core) (r : Response) (uid : Id) (t : Ticket) (um : Text) (h : CInv st) :
     CInv (completeSubscribe st r uid t um).1 := by
   unfold completeSubscribe
   cases hp : r.payload with
-  | error e => exact h
+  | error e => exact cinv_release st uid h
   | result raw =>
     simp only
     cases hd : decodeSubId raw with
-    | none => exact h
+    | none => exact cinv_release st uid h
     | some s =>
       simp only
       cases hins : st.mgr.insertSubscription r.id uid s st.chans.length um with
-      | none => exact h
+      | none => exact cinv_release st uid h
       | some m' =>
         obtain ⟨hv, hsv, e⟩ := insertSubscription_spec _ _ _ _ _ _ _ hins
         have hm : ({ st with mgr := m' } : Core) = withSub st r.id uid s um := by rw [e]; rfl
@@ -495,17 +549,8 @@ theorem cinv_completeSubscribe (st : Core) (r : Response) (uid : Id) (t : Ticket
         | false =>
           simp only [Bool.false_eq_true, if_false]
           unfold abandonedSubscribe
-          have h1 : CInv (((withSub st r.id uid s um).newChan (.sub s) t.op uid).1.modChan st.chans.length
-                (fun ch => { dropReceiver ch with hasKind := false })) :=
-            ⟨allChans_modChan ChanInv _ _ _ h0.chans (fun ch _ hc => chanInv_dropReceiver ch hc),
-             routes_modChan _ _ _ (fun ch => rfl) h0.routes⟩
-          cases hb : buildUnsubscribeMessage
-              (((withSub st r.id uid s um).newChan (.sub s) t.op uid).1.modChan st.chans.length
-                (fun ch => { dropReceiver ch with hasKind := false })) r.id s with
-          | none => exact h1
-          | some x =>
-            obtain ⟨st', msg⟩ := x
-            exact cinv_buildUnsub _ _ _ _ _ hb (by simp [Core.modChan, Core.newChan, withSub, alookup]) h1
+          exact ⟨allChans_modChan ChanInv _ _ _ h0.chans (fun ch _ hc => chanInv_dropReceiver ch hc),
+                 routes_modChan _ _ _ (fun ch => rfl) h0.routes⟩
 
 theorem cinv_processSingleResponse (st st' : Core) (r : Response) (effs : List Effect)
     (hp : processSingleResponse st r = .ok (st', effs)) (h : CInv st) : CInv st' := by
@@ -517,10 +562,16 @@ theorem cinv_processSingleResponse (st st' : Core) (r : Response) (effs : List E
     | none => simp [hcp] at hp
     | some x =>
       obtain ⟨m', t0⟩ := x
-      obtain ⟨hl, e⟩ := completePendingCall_spec _ _ _ _ hcp
-      subst e
-      have h1 : CInv { st with mgr := { st.mgr with requests := aerase r.id st.mgr.requests } } :=
-        ⟨fun ch hc => h.chans ch hc, routes_erase_nonsub st r.id h.routes (fun _ _ _ c => by rw [hl] at c; simp at c)⟩
+      obtain ⟨f1, _, f3, _, _, f6, _⟩ := completePendingCall_frame _ _ _ _ hcp
+      have hnsub : ∀ u c um, alookup r.id st.mgr.requests ≠ some (.sub u c um) := by
+        intro u c um hc
+        rcases completePendingCall_spec _ _ _ _ hcp with ⟨hl, _⟩ | ⟨_, hl, _, _⟩ <;> rw [hl] at hc <;> simp at hc
+      have h1 : CInv { st with mgr := m' } := by
+        refine ⟨fun ch hc => h.chans ch hc, routes_mgr_frame st m' h.routes (fun _ _ hh => by rw [f1] at hh; exact hh)
+          (fun _ _ hh => by rw [f3] at hh; exact hh) ?_⟩
+        intro s rid u c um _ hl
+        have hne : rid ≠ r.id := by intro e; subst e; exact hnsub u c um hl
+        exact (f6 rid _ (by simp) hne).2 hl
       cases t0 with
       | none =>
         simp [hcp] at hp
